@@ -104,12 +104,21 @@ def pure_battery(o, rng=None, which=None):
         "get_uversky_hydropathy": lambda: o.get_uversky_hydropathy(), "get_WW_hydropathy": lambda: o.get_WW_hydropathy(),
         "get_mean_net_charge": lambda: o.get_mean_net_charge(), "get_fraction_expanding": lambda: o.get_fraction_expanding(),
         "get_Omega_sequence": lambda: o.get_Omega_sequence(), "get_linear_FCR": lambda: o.get_linear_FCR(w),
+        "reduce_user_alphabet_1": lambda: o.get_reduced_alphabet_sequence(20, UA1), "reduce_user_alphabet_2": lambda: o.get_reduced_alphabet_sequence(20, UA2),
+        "complexity_user_alphabet_2": lambda: o.get_linear_complexity("WF", 20, UA2, w, 1),
+        "get_linear_composition_user": lambda: o.get_linear_sequence_composition(w, [["K", "R"], ["S"]]),
     }
     names = [which] if which else sorted(calls)
-    return {n: dcall(calls[n]) for n in names}
+    if rng is not None:
+        names = list(names)
+        rng.shuffle(names)          # the order of the calls varies; the digest below is by name
+    out = {n: dcall(calls[n]) for n in names}
+    return {n: out[n] for n in sorted(out)}
 
 
-PURE_NAMES = sorted(["get_sequence", "get_length", "len", "str", "get_FCR", "get_NCPR", "get_delta", "get_SCD", "get_mean_hydropathy",
+UA1 = {a: ("L" if a in "LVIMCAGSTPFYW" else "E") for a in common.AA}
+UA2 = {a: ("K" if a in "KRH" else "D" if a in "DE" else "G") for a in common.AA}
+PURE_NAMES = sorted(["reduce_user_alphabet_1", "reduce_user_alphabet_2", "complexity_user_alphabet_2", "get_linear_composition_user", "get_sequence", "get_length", "len", "str", "get_FCR", "get_NCPR", "get_delta", "get_SCD", "get_mean_hydropathy",
                      "get_isoelectric_point", "get_FCR_pH", "get_phasePlotRegion", "get_linear_NCPR", "get_linear_sigma",
                      "get_linear_hydropathy", "get_linear_complexity", "get_reduced_alphabet_sequence", "get_amino_acid_fractions",
                      "get_molecular_weight", "get_PPII_propensity", "get_all_phosphorylatable_sites", "get_countPos",
@@ -120,10 +129,13 @@ PERM_FLAGS = ["True", "1", "np.bool_", "str", "np.int64"]
 DERIVED_NAMES = ["get_Omega", "get_kappa_X1", "get_kappa_X2", "get_full_phosphostatus_kappa_distribution"]
 
 
+ORDER = __import__("random").Random(7)
+
+
 def one_call(o, kind, name=None):
     """Digest of one concrete call of an abstract kind (name=None: the whole battery of that kind)."""
     if kind == "pure":
-        return digest(pure_battery(o, which=name)) if name else digest(pure_battery(o))
+        return digest(pure_battery(o, which=name)) if name else digest(pure_battery(o, rng=ORDER))
     if kind == "phospho":
         names = [name] if name else PHOSPHO_NAMES
         return digest({n: dcall(getattr(o, n)) for n in names})
@@ -182,7 +194,8 @@ def project(o):
     dmax = getattr(so, "dmax", None)
     return {"alive": True, "seq": list(o.get_sequence()), "dmaxSet": None if dmax is None else bool(dmax != -1),
             "permSet": None if not hasattr(so, "seqDeltaMax") else so.seqDeltaMax is not None,
-            "sites": [int(i) for i in sites[1]] if sites[0] == "ok" else ["?"], "pal": dict(pal) if isinstance(pal, dict) else None}
+            "sites": [int(i) for i in sites[1]] if sites[0] == "ok" else ["?"],
+            "pal": {r: (pal[r] if isinstance(pal.get(r), str) else "?missing") for r in common.AA} if isinstance(pal, dict) else None}
 
 
 def twin(lc, o):
